@@ -587,8 +587,6 @@ class C10Engine:
             for h, d in m.items():
                 if d["kind"] == "ref" and any(m[c]["table"] == t for c in d["col1"] + d["col2"]):
                     return "table used by a reference"
-                if d["kind"] == "group" and t in d["items"]:
-                    return "table used by a group"
         elif k == "new_ref":
             spec = op[1]
             for c in spec["col1"] + spec["col2"]:
